@@ -38,15 +38,15 @@ for _pid, _txt in {
     "C02": "Exhaustive exploration of all ordered pairs of locations of the small world under every flag combination of the set API, cross-parent-kind pairs, a unary battery on disjoint/zero-length/overlapping layouts and depth-2 re-exploration of derived non-normalised results; oracle = python set algebra on covered positions + structural invariants on every returned location.",
     "C03": "Exhaustive exploration of every location over designed genomes of all five nucleotide alphabets (every position distinguishable): extraction, reverse-strand extraction, all 2/3-way splits; located sequences on every location: every slice, index, open-ended slice, reverse complement (twice) and append for every ordered pair of slices; oracle = base-by-base image of the position-list model.",
     "C04": "Exhaustive exploration of every hierarchy of depth <= D whose levels are placed by arbitrary single/multi-block layouts on either strand, every leaf location, lifted to every ancestor by type and by sequence identity (+ absent ancestors), and of every location x chunk window x chunk strand for the chunk round trip; oracle = composition of the per-level position lists and equality of extracted sequence.",
-    "C05": "Exhaustive exploration of every CDS on every exon layout x strand x EVERY frame vector (consistent and frameshifted) on three designed genomes: codon location lists, every chromosome window, fast sequence path, codon iterator, translation under every (table,truncate,strict), predicates, generated frames, and all 64 codons as first/middle/last codon; oracle = one reading-frame model.",
+    "C05": "Exhaustive exploration of every CDS on every exon layout x strand x EVERY frame vector (consistent and frameshifted) on three designed genomes: codon location lists, every chromosome window, fast sequence path, codon iterator, translation under every (table,truncate,strict), predicates, generated frames, every listing order of the exons, merging of blocks on objects that share their lists, and all 64 codons as first/middle/last codon; oracle = one reading-frame model.",
     "C06": "Exhaustive exploration of every transcript (all exon layouts, strands, contiguous CDS placements, non-coding) through every point and interval conversion between chromosome/transcript/CDS coordinates, path independence, inverses, rejections, UTR/CDS partition and introns; oracle = position-list transcript model.",
-    "C12": "Exhaustive exploration of generated gene-model records x flavour x update_translations: file read by Bio.SeqIO (independent reader) and by parse_genbank in SORTED/LOCUS_TAG/HYBRID modes; oracle = expected rows, part sets, qualifiers and protein from the reading-frame model; mode agreement on sorted files.",
-    "C14": "Exhaustive exploration of every transcript/feature x CDS placement x parent kind x every chunk window containing the interval x both coordinate modes x name/score/rgb menu; str(BED12) decoded by an independent 12-column reader and checked against the BED invariants and the source blocks.",
+    "C12": "Exhaustive exploration of generated gene-model records x flavour x update_translations: file read by Bio.SeqIO (independent reader) and by parse_genbank in SORTED/LOCUS_TAG/HYBRID modes; oracle = expected rows, part sets, qualifiers and protein from the reading-frame model; mode agreement on position-sorted files with unique tags; genes with 2-3 isoforms; listing order of parsed members and 5'->3' order of location parts.",
+    "C14": "Exhaustive exploration of every transcript/feature x CDS placement x parent kind x every chunk window containing the interval x both coordinate modes x name/score/rgb menu, descending / rotated constructor lists, and intervals that are also placed in a collection on another chunk; str(BED12) decoded by an independent 12-column reader and checked against the BED invariants and the source blocks.",
     "C15": "Complete enumeration of the finite domains (64 codons, 16^3 IUPAC triplets in three spellings, every alphabet letter in both cases + all 2-letter words, frames x shifts, strand algebra, biotype pairs) against Bio.Data.CodonTable / IUPACData / Bio.Seq.",
     "C16": "Exhaustive exploration of all (start,end) pairs in and across bands around every bin boundary of every level, both conventions, out-of-range values, all soundness triples (interval, query range); thorough adds the 2^14 lattice up to 2^30; oracle = kent binFromRangeExtended transcription + containment + the soundness inclusion.",
     "C17": "Exhaustive exploration of generated collections (CDS content x exon structure x strand x table x flavour; collections x locus-tag prefix/step/seed) exported to .tbl and decoded by an independent 5-column reader; oracle = source blocks 5'->3', partial marks / codon_start / pseudo from the reading-frame model, locus tag arithmetic, byte-identical reruns.",
     "C18": "Exhaustive exploration of every ordered subset of the recognised qualifier keys in three spellings with look-alike keys and notes, type-key menus, all pairs of small dictionaries for merging, and ALL permutations of the feature rows of locus-tag-complete GenBank records parsed in LOCUS_TAG mode; oracle = documented priority ranks / set union / order independence.",
-    "C07": "Exhaustive exploration of twin pairs (whole chromosome / chunk) of features, transcripts (every CDS placement, start frames 0-2), CDS, genes, feature collections and annotation collections on every exon layout x strand x EVERY chunk window; chromosome-level answers must be identical, chunk-level answers must equal the chromosome answers restricted to the window (reading-frame model for codons).",
+    "C07": "Exhaustive exploration of twin pairs (whole chromosome / chunk) of features, transcripts (every CDS placement, start frames 0-2), CDS, genes, feature collections and annotation collections on every exon layout x strand x EVERY chunk window; chromosome-level answers must be identical, chunk-level answers must equal the chromosome answers restricted to the window (reading-frame model for codons); the two views are also built from SHARED child objects, and chunk questions are asked before chromosome questions on one object.",
     "C10": "Stateless explicit-state search over call HISTORIES on the real objects: states are memo vectors (lru wrapper sizes, lazy slots, CDS path flag, shared Parents, global Parent cache condition) reached by replaying a history on a fresh object; transitions are all public zero-argument accessors (reflection), argument menus, macro calls that overflow method caches and environment actions (evict/clear/twin/alias); every answer is compared in value and concrete type with a cold fresh twin; plus operand snapshots before/after every binary/export operation.",
     "C19": "Exhaustive enumeration of systematically corrupted constructor calls of every data-model class and of the full product of boundary-argument menus over every public method of every catalogue object and of every location of a small layout world (disjoint, zero-length and overlapping blocks); outcome must be a well-formed value or a documented exception.",
     "C20": "Exhaustive exploration of genes / feature collections with 1-3 children of every structure, strand mix, coding mix, primary-flag vector and engineered ties, and annotation collections of <=4 members in every input order x parent kinds x bounds; oracle = pure-Python functions of the child descriptions (span, union of positions, coding, types, primary selection, iteration order, bounds inference).",
